@@ -11,7 +11,7 @@ from ..tabs import bytest as bytab
 
 PROP = "C08"
 CORR = "Corr.C08"
-REQUIRES = ["Model.Adapters", "Spec.C08"]
+REQUIRES = ["Model.Adapters", "Spec.C08", "Model.AdaptersLit"]
 PROOF_FILES = ["Proof/C08.v"]
 MANIFEST = {
     "text": "Coq theorems over all adapter stacks (trees of ExtendedToOriginalDecorator / MultiTestResult / "
@@ -33,12 +33,20 @@ MANIFEST = {
 RULE = ("adapter stacks: every well-formed stack of depth <= 2 over the five target flavours and TestByTestResult "
         "(MultiTestResult with one or two members), random stacks of depth 3; histories of 0-4 bracketed tests "
         "(TestCase / PlaceHolder / ErrorHolder) with all six outcomes given as exc_info/reason or as details (text, "
-        "blank and binary attachments, with and without 'reason'/'traceback', empty dict), interleaved tags/time/"
-        "progress/stop/done/startTestRun/stopTestRun; non-trivial = at least one test and (depth >= 2 or a target "
-        "lacking a method or the details protocol or a Tagger or a TestByTestResult); distinct = distinct JSON")
+        "blank and binary attachments, empty dict; names drawn from 'traceback', 'reason' and names that extend or "
+        "resemble them: traceback-1, traceback-1-2, traceback-2, tracebackx, trace, Traceback, reason-1, reaso, plus "
+        "attach/zlog), interleaved tags/time/progress/stop/done/startTestRun/stopTestRun; a bounded-exhaustive block: "
+        "nine name sets around the special names in EVERY insertion order x six outcomes over stacks ending in every "
+        "target flavour; real testtools TestCases (body errors/fails/skips/passes, 0-2 raising cleanups, own details "
+        "incl. one named 'traceback') run with TestCase.run against the stack, the history being what they report; "
+        "non-trivial = at least one test and (depth >= 2 or a target lacking a method or the details protocol or a "
+        "Tagger or a TestByTestResult); distinct = distinct JSON")
 TRUSTED = ["the doubles of testtools.testresult.doubles and a logging subclass of testtools.TestResult record what "
            "they are called with; their capability sets are probed (hasattr / inspect.signature) and sent to the model",
-           "python's str.strip / sorted / str.join are modelled by strip / isort / join of Model/Adapters.v"]
+           "python's str.strip / sorted / str.join / str comparison are modelled by strip / isort / join / name_leb "
+           "of Model/Adapters.v",
+           "real-TestCase cases: the history is read off the TestCase (getDetails() after the run; the outcome it "
+           "reports follows from the program: a raising cleanup gives addError, else the body decides)"]
 ASSUMPTIONS = ["stacks are well-formed: TestResultDecorator / Tagger (which forward the extended protocol unchanged) "
                "decorate something that speaks it; a bare target on top speaks it",
                "histories are bracketed (startTest, one outcome, stopTest; startTestRun/stopTestRun between tests); "
@@ -50,7 +58,19 @@ EXPLANATION = ("Theorems in coq/Props/C08.v over all stacks and histories; corre
                "the on_test callbacks and the raising calls are compared with coq/Model/Adapters.v and judged by "
                "Spec.C08.spec_okb inside coqc.")
 
-NAMES = ["attach", "reason", "traceback", "zlog"]      # numeric order = string order (Model.Adapters.name_text)
+# detail names are sent to the model as they are (strings); the pool is built around the two names the code
+# treats specially ('traceback' in _details_to_exc_info, 'reason' in addSkip): names extending them (what
+# TestCase._report_traceback / addDetailUniqueName produce), a proper prefix, a case variant, unrelated ones
+NAMES = ["attach", "reason", "reason-1", "reaso", "trace", "traceback", "traceback-1", "traceback-1-2", "traceback-2",
+         "tracebackx", "Traceback", "zlog"]
+CORE_NAMES = ["traceback", "traceback-1", "reason"]
+OLD_NAMES = ["attach", "reason", "traceback", "zlog"]   # replays written before names were strings
+
+
+def dname(n):
+    if isinstance(n, int):
+        return OLD_NAMES[min(n, 3)]
+    return n
 FLAVOURS = ["26", "27", "ext", "tw", "tt"]
 EXT_FLAVOURS = ["ext", "tt"]
 EPOCH = datetime.datetime(2000, 1, 1, tzinfo=datetime.timezone.utc)
@@ -136,6 +156,35 @@ def _classes():
         def test_x(self):
             pass
 
+    class RealCase(testtools.TestCase):
+        """a TestCase that really runs: own details, a body that errors / fails / skips / passes, cleanups that
+        raise (each adds a traceback-N detail)"""
+
+        def __init__(self, name, prog):
+            super().__init__("test_x")
+            self._name = name
+            self._prog = prog
+
+        def id(self):
+            return self._name
+
+        def _boom(self, j):
+            raise RuntimeError("cleanup %d exploded" % j)
+
+        def test_x(self):
+            for j in range(self._prog["cleanups"]):
+                self.addCleanup(self._boom, j)
+            for n, content in mk_details(self._prog["details"]).items():
+                self.addDetail(n, content)
+            body = self._prog["body"]
+            if body == "error":
+                raise RuntimeError("body exploded")
+            if body == "fail":
+                self.fail("body failed")
+            if body == "skip":
+                self.skipTest("body skipped")
+
+    _CLS["RealCase"] = RealCase
     _CLS.update({"26": doubles.Python26TestResult, "27": doubles.Python27TestResult,
                  "ext": doubles.ExtendedTestResult, "tw": doubles.TwistedTestResult, "tt": LoggingTestResult,
                  "Case": Case})
@@ -201,9 +250,9 @@ def mk_details(d):
     out = {}
     for n, kind, payload in d:
         if kind == "t":
-            out[NAMES[n]] = text_content(payload)
+            out[dname(n)] = text_content(payload)
         else:
-            out[NAMES[n]] = Content(ContentType("application", "octet-stream"), lambda b=bytes(payload): [b])
+            out[dname(n)] = Content(ContentType("application", "octet-stream"), lambda b=bytes(payload): [b])
     return out
 
 
@@ -314,10 +363,10 @@ def o_details(d, ctx):
     from testtools.content import TracebackContent
     out = []
     for name, content in d.items():
-        n = NAMES.index(name) if name in NAMES else 7
-        if isinstance(content, TracebackContent):
-            m = re.search(r"orig-(\d+)", content.as_text())
-            out.append([n, "tb", ["o", int(m.group(1))] if m else ["x"]])
+        n = name if isinstance(name, str) else "?%r" % (name,)
+        m = re.search(r"orig-(\d+)", content.as_text()) if isinstance(content, TracebackContent) else None
+        if m:          # the traceback TestByTestResult made from an exc_info of the history
+            out.append([n, "tb", ["o", int(m.group(1))]])
         elif content.content_type.type == "text":
             out.append([n, "t", content.as_text()])
         else:
@@ -371,12 +420,59 @@ def o_callback(kw, ctx):
             o_time(kw.get("stop_time")), o_tags(kw.get("tags") or ()), None if d is None else o_details(d, ctx)]
 
 
+def real_outcome(prog):
+    """what a TestCase with this program reports: the last exception caught decides, and cleanups run last"""
+    if prog["cleanups"] > 0:
+        return "error"
+    return {"error": "error", "fail": "failure", "skip": "skip", "pass": "success"}[prog["body"]]
+
+
+def run_real(top, c, ctx):
+    """TestCase.run(result) reports through its own ExtendedToOriginalDecorator(result): the stack of the case is
+    ["E", inner] and the test is run against the inner object.  Returns the calls the TestCase made."""
+    from testtools.testresult import real
+    assert type(top) is real.ExtendedToOriginalDecorator
+    tid, prog = c[1], c[2]
+    assert test_kind(tid) == "case"
+    t = _classes()["RealCase"]("t%d" % tid, prog)
+    ctx.tests[tid] = t
+    t.run(top.decorated)
+    det = ["d", o_details(t.getDetails(), ctx)]
+    kind = real_outcome(prog)
+    if kind in ERR_METH:
+        oc = ["err", kind, tid, det]
+    elif kind == "skip":
+        oc = ["skip", tid, det]
+    else:
+        oc = ["ok", kind, tid, det]
+    return [["start", tid], oc, ["stop", tid]]
+
+
+def has_real(case):
+    return any(c[0] == "real" for c in case["hist"])
+
+
+def expand(case, o):
+    """the history as a list of calls: a real TestCase run stands for the calls it made"""
+    if not has_real(case):
+        return case["hist"], list(range(len(case["hist"])))
+    h, pos, g = [], [], iter(o["given"])
+    for c in case["hist"]:
+        pos.append(len(h))
+        h += next(g) if c[0] == "real" else [c]
+    return h, pos
+
+
 def drive(case):
     ctx = Ctx()
     leaves = []
     top = build(case["stack"], leaves)
     raised = []
+    given = []
     for j, c in enumerate(case["hist"]):
+        if c[0] == "real":
+            given.append(run_real(top, c, ctx))
+            continue
         try:
             invoke(top, c, ctx)
         except Exception as e:      # noqa - part of the observation; spec_okb judges it
@@ -387,12 +483,39 @@ def drive(case):
             out.append(["log", [o_event(ev, ctx) for ev in x._events]])
         else:
             out.append(["cbs", [o_callback(kw, ctx) for kw in x]])
+    if given:
+        return {"leaves": out, "raised": raised, "given": given}
     return {"leaves": out, "raised": raised}
 
 
 # ---------------------------------------------------------------- Gallina
 def t_text(s):
-    return q.lst([q.nat(ord(ch)) for ch in s])
+    """a str as a Gallina list of code points: runs of printable ASCII (and newlines) as string literals decoded
+    by Model.AdaptersLit.T, every other character as a numeral"""
+    parts, run, odd = [], [], []
+
+    def flush():
+        if run:
+            parts.append('(T "%s"%%string)' % "".join(run))
+            del run[:]
+        if odd:
+            parts.append(q.lst([q.nat(n) for n in odd]))
+            del odd[:]
+
+    for ch in s:
+        o = ord(ch)
+        if (32 <= o < 127 and ch != '"') or ch == "\n":
+            if odd:
+                flush()
+            run.append(ch)
+        else:
+            if run:
+                flush()
+            odd.append(o)
+    flush()
+    if not parts:
+        return "[]"
+    return parts[0] if len(parts) == 1 else "(%s)" % " ++ ".join(parts)
 
 
 def t_nats(l):
@@ -420,7 +543,7 @@ def t_details(d):
             k = "(DBin %s)" % t_nats(payload)
         else:
             k = "(DTb %s)" % t_errv(payload)
-        items.append(q.pair(q.nat(n), k))
+        items.append(q.pair(t_text(dname(n)), k))
     return q.lst(items)
 
 
@@ -478,7 +601,8 @@ def t_cb(c):
 
 
 def term(case, o):
-    i = q.record([("stack", t_stack(case["stack"])), ("hist", q.lst([t_call(c) for c in case["hist"]]))])
+    hist, pos = expand(case, o)
+    i = q.record([("stack", t_stack(case["stack"])), ("hist", q.lst([t_call(c) for c in hist]))])
     leaves = []
     for kind, l in o["leaves"]:
         if kind == "log":
@@ -486,7 +610,7 @@ def term(case, o):
         else:
             leaves.append("(OCbs %s)" % q.lst([t_cb(c) for c in l]))
     ob = q.record([("o_leaves", q.lst(leaves)),
-                   ("o_raised", q.lst([q.pair(q.nat(j), e) for j, e in o["raised"]]))])
+                   ("o_raised", q.lst([q.pair(q.nat(pos[j] if j < len(pos) else j), e) for j, e in o["raised"]]))])
     return q.pair(i, ob)
 
 
@@ -579,18 +703,18 @@ def rand_text(rng, blank_ok=True):
     r = rng.random()
     if blank_ok and r < 0.12:
         return "".join(rng.choice([" ", "\n", "\t"]) for _ in range(rng.randint(0, 2)))
-    s = "".join(rng.choice(ALPHABET) for _ in range(rng.randint(1, 6)))
+    s = "".join(rng.choice(ALPHABET) for _ in range(rng.randint(1, 8)))
     return s
 
 
 def rand_details(rng):
     if rng.random() < 0.1:
         return []
-    names = [n for n in range(len(NAMES)) if rng.random() < 0.5]
-    rng.shuffle(names)
+    names = [n for n in NAMES if rng.random() < (0.4 if n in CORE_NAMES else 0.13)]
+    rng.shuffle(names)          # insertion order of the dict
     out = []
     for n in names:
-        if n != 1 and rng.random() < 0.2:
+        if n != "reason" and rng.random() < 0.2:
             out.append([n, "b", [rng.choice([0, 65, 128, 255]) for _ in range(rng.randint(0, 3))]])
         else:
             out.append([n, "t", rand_text(rng)])
@@ -653,6 +777,95 @@ SYSTEMATIC = [
 ]
 
 
+# ---- names around the special ones, in every insertion order, for every outcome and target flavour
+NAME_SETS = [
+    ["traceback", "traceback-1"],                       # body failed and a cleanup raised
+    ["traceback", "traceback-1", "traceback-1-2"],
+    ["traceback", "tracebackx"],
+    ["traceback", "trace"],
+    ["traceback-1", "zlog"],                            # no special attachment at all
+    ["reason", "reason-1"],
+    ["reason-1", "reaso"],                              # no 'reason': addSkip falls back to _details_to_str
+    ["reason", "traceback", "traceback-1"],
+    ["traceback", "traceback-2", "reason-1"],
+]
+WORDS = ["ALPHA", "BRAVO", "CHARLIE", "DELTA", "ECHO", "FOXTROT"]
+OUTCOME_KINDS = ["error", "failure", "xfail", "skip", "success", "uxsuccess"]
+
+
+def name_orders():
+    import itertools
+    out = []
+    for ns in NAME_SETS:
+        out += [list(p) for p in itertools.permutations(ns)]
+    return out
+
+
+def worded_details(rng, names):
+    """distinct words as texts (none contains another), some multi-line, some padded with blanks"""
+    ws = rng.sample(WORDS, len(names))
+    out = []
+    for n, w in zip(names, ws):
+        t = rng.choice([w, w, w + "\n" + w.lower(), " " + w + "\n", w + " " + w.lower()])
+        out.append([n, "t", t])
+    return out
+
+
+def names_hist(rng, names, kinds=OUTCOME_KINDS):
+    h = [["run"]] if rng.random() < 0.5 else []
+    for kind in kinds:
+        tid = rng.randint(0, 8)
+        oc = rand_outcome(rng, tid, kind, "details")
+        if oc[0] == "skip":
+            oc[2] = ["d", worded_details(rng, names)]
+        else:
+            oc[3] = ["d", worded_details(rng, names)]
+        h += block(rng, tid, oc, 0.1)
+    return h
+
+
+def names_stacks():
+    """stacks whose innermost results cover every flavour, each behind every kind of adapter"""
+    out = [["E", l] for l in LEAVES]
+    out += [["M", [["T", "26"], ["T", "27"]]], ["M", [["T", "tw"], ["T", "ext"]]], ["M", [["T", "tt"], ["B"]]],
+            ["G", [1], [2], ["M", [["T", "27"], ["T", "tw"]]]], ["D", ["E", ["T", "tw"]]],
+            ["E", ["D", ["E", ["T", "26"]]]], ["M", [["G", [3], [], ["E", ["T", "27"]]], ["T", "26"]]],
+            ["G", [], [1], ["D", ["M", [["T", "26"], ["T", "tw"], ["T", "ext"]]]]]]
+    return out
+
+
+# ---- real TestCases
+REAL_DETAILS = [[], [["note", "t", "state before failing: 42"]], [["traceback", "t", "USER TRACEBACK"]],
+                [["traceback-1", "t", "USER TB ONE"], ["reason", "t", "user reason"]]]
+REAL_INNER = [["T", "26"], ["T", "27"], ["T", "tw"], ["T", "ext"], ["T", "tt"], ["B"],
+              ["M", [["T", "26"], ["T", "27"]]], ["M", [["T", "tw"], ["B"]]], ["G", [1], [], ["M", [["T", "27"]]]],
+              ["D", ["E", ["T", "tw"]]]]
+
+
+def real_progs():
+    return [{"body": b, "cleanups": c, "details": d} for b in ["error", "fail", "skip", "pass"] for c in [0, 1, 2]
+            for d in REAL_DETAILS]
+
+
+def real_cases(rng, tier):
+    progs = real_progs()
+    out = []
+    # the scenario of a test whose body fails and whose cleanup raises, everywhere
+    both = {"body": "error", "cleanups": 1, "details": REAL_DETAILS[1]}
+    for inner in REAL_INNER:
+        out.append({"stack": ["E", inner], "hist": [["real", 0, both]]})
+    per = 3 if tier == "quick" else 24
+    for inner in REAL_INNER:
+        for _ in range(per):
+            h = [["run"]] if rng.random() < 0.5 else []
+            for _k in range(rng.choice([1, 2, 2])):
+                h += rand_noise(rng, 0.2)
+                h.append(["real", 3 * rng.randint(0, 2), rng.choice(progs)])
+            h += rand_noise(rng, 0.2)
+            out.append({"stack": ["E", inner], "hist": h})
+    return out
+
+
 def generate(rng, tier):
     cases = []
     fixed = [
@@ -668,8 +881,19 @@ def generate(rng, tier):
                   ["stop", 1], ["endrun"]]},
         # details with a special traceback, a blank and a binary attachment towards a 2.6-style result
         {"stack": ["E", ["T", "26"]],
-         "hist": [["start", 3], ["err", "failure", 3, ["d", [[3, "t", "a\nb"], [2, "t", " c: "], [0, "t", " \n"],
-                                                           [1, "b", [255, 0]]]]], ["stop", 3]]},
+         "hist": [["start", 3], ["err", "failure", 3, ["d", [["zlog", "t", "a\nb"], ["traceback", "t", " c: "],
+                                                           ["attach", "t", " \n"], ["reason", "b", [255, 0]]]]],
+                  ["stop", 3]]},
+        # body failed and a cleanup raised: 'traceback' and 'traceback-1', either insertion order, 2.7 / Twisted style
+        {"stack": ["E", ["T", "27"]],
+         "hist": [["start", 0], ["err", "error", 0, ["d", [["traceback", "t", "ALPHA\nalpha"],
+                                                         ["traceback-1", "t", "BRAVO"]]]], ["stop", 0]]},
+        {"stack": ["M", [["T", "tw"]]],
+         "hist": [["start", 1], ["err", "failure", 1, ["d", [["traceback-1", "t", "BRAVO"],
+                                                           ["traceback", "t", "ALPHA"]]]], ["stop", 1]]},
+        {"stack": ["E", ["T", "27"]],
+         "hist": [["start", 1], ["skip", 1, ["d", [["reason-1", "t", "BRAVO"], ["reason", "t", "ALPHA"]]]],
+                  ["stop", 1]]},
         {"stack": ["D", ["T", "tt"]], "hist": [["prog", 1, 2], ["done"], ["halt"]]},
     ]
     cases += fixed
@@ -680,6 +904,20 @@ def generate(rng, tier):
             cases.append({"stack": s, "hist": rand_hist(rng, 4, outs, p=0.25)})
         for _ in range(per_stack):
             cases.append({"stack": s, "hist": rand_hist(rng, rng.choice([0, 1, 1, 2, 2, 3, 4]))})
+    orders = name_orders()
+    if tier == "quick":
+        for s in names_stacks():
+            for names in orders:
+                cases.append({"stack": s, "hist": names_hist(rng, names)})
+    else:
+        for s in names_stacks():
+            for names in orders:
+                for _ in range(3):
+                    cases.append({"stack": s, "hist": names_hist(rng, names)})
+        for s in stacks:
+            for _ in range(8):
+                cases.append({"stack": s, "hist": names_hist(rng, rng.choice(orders), rng.sample(OUTCOME_KINDS, 3))})
+    cases += real_cases(rng, tier)
     n_rand = 1200 if tier == "quick" else 22000
     for _ in range(n_rand):
         s = rand_stack(rng, 3)
@@ -690,7 +928,7 @@ def generate(rng, tier):
 
 
 def n_tests(case):
-    return sum(1 for c in case["hist"] if c[0] == "start")
+    return sum(1 for c in case["hist"] if c[0] in ("start", "real"))
 
 
 def nontrivial(case):
@@ -708,8 +946,9 @@ def shrink(case):
         e = next(k for k in range(j, len(h)) if h[k][0] == "stop")
         yield {"stack": s, "hist": h[:j] + h[e + 1:]}
     for j, c in enumerate(h):
-        if c[0] in ("tags", "time", "prog", "halt", "done", "run", "endrun"):
+        if c[0] in ("tags", "time", "prog", "halt", "done", "run", "endrun", "real"):
             yield {"stack": s, "hist": h[:j] + h[j + 1:]}
+    real = has_real(case)
 
     def sub(t):
         k = t[0]
@@ -734,11 +973,21 @@ def shrink(case):
                 yield ["D", x] if k == "D" else ["G", t[1], t[2], x]
         if k == "G" and (t[1] or t[2]):
             yield ["G", [], [], c]
-    for x in sub(s):
-        if is_ext(x):
-            yield {"stack": x, "hist": h}
-        else:
+    if real:                    # TestCase.run supplies the ExtendedToOriginalDecorator on top
+        for x in sub(s[1]):
             yield {"stack": ["E", x], "hist": h}
+        for j, c in enumerate(h):
+            if c[0] == "real":
+                pr = c[2]
+                for pr2 in ([dict(pr, cleanups=pr["cleanups"] - 1)] if pr["cleanups"] else []) + \
+                           [dict(pr, details=pr["details"][:m] + pr["details"][m + 1:]) for m in range(len(pr["details"]))]:
+                    yield {"stack": s, "hist": h[:j] + [["real", c[1], pr2]] + h[j + 1:]}
+    else:
+        for x in sub(s):
+            if is_ext(x):
+                yield {"stack": x, "hist": h}
+            else:
+                yield {"stack": ["E", x], "hist": h}
     # simplify details
     for j, c in enumerate(h):
         a = c[3] if c[0] in ("err", "ok") else c[2] if c[0] == "skip" else None
@@ -752,7 +1001,8 @@ def shrink(case):
 
 def distribution(cases):
     d = {"depth": {}, "tests": {}, "leaf_flavours": {}, "outcomes": {}, "adapters": {}, "details_form": 0,
-         "empty_details": 0, "binary_details": 0}
+         "empty_details": 0, "binary_details": 0, "real_testcase_runs": 0, "special_and_extension": 0,
+         "reason_and_extension": 0, "detail_names": {}}
     for c in cases:
         dp = depth(c["stack"])
         d["depth"][dp] = d["depth"].get(dp, 0) + 1
@@ -773,4 +1023,15 @@ def distribution(cases):
                     d["details_form"] += 1
                     d["empty_details"] += not a[1]
                     d["binary_details"] += any(e[1] == "b" for e in a[1])
+                    ns = [dname(e[0]) for e in a[1]]
+                    for n in ns:
+                        d["detail_names"][n] = d["detail_names"].get(n, 0) + 1
+                    d["special_and_extension"] += "traceback" in ns and any(
+                        n != "traceback" and n.startswith("traceback") for n in ns)
+                    d["reason_and_extension"] += "reason" in ns and any(
+                        n != "reason" and n.startswith("reason") for n in ns)
+            elif x[0] == "real":
+                d["real_testcase_runs"] += 1
+                k = "real:" + real_outcome(x[2])
+                d["outcomes"][k] = d["outcomes"].get(k, 0) + 1
     return d
